@@ -87,6 +87,9 @@ def run(ctx):
   rule_comb(ctx)
   rule_batchinv(ctx)
   ctx.expect("R-C11-BATCHINV", 1, "BatchInverse")
+  # BatchMultiplyG reads multiples of *this curve's* generator from a memo: the memo must belong to the curve object (shared with C17)
+  from . import c17
+  ctx.borrow(c17.rule_stateless, "R-C11-COMB", lambda r: r.where.endswith("BatchMultiplyG"))
   ctx.expect("R-C11-COMB", 4, "reduction, multiplier, tiling, Horner")
   ctx.expect("R-C11-SCALAR", 2, "Multiply and MultiplyAffine")
   ctx.expect("R-C11-FORMULA", 15, "15 formula blocks")
